@@ -15,7 +15,7 @@ func init() {
 		Technique:   "guarded-sink / value-provenance rules (SSA) on timeutil.Next (min-clamp idiom against last+maxDuration) and on autoRefresh.Ensure (bound and anchor handed to Next, invalidation of the cached next-refresh time on a timer change); who-may-write of autoRefresh.lastRefreshSchedule",
 		Explanation: "Structural necessary conditions for 'auto-refresh happens inside the timer windows and never later than the limit' (that Schedule.Next lands inside a window is calendar arithmetic and is not decided): (R1) timeutil.Next starts from the fallback window beginning at last+maxDuration (the `last` argument, not the clock) and replaces it only by a schedule window proven to start earlier - so no chosen window starts after the limit; every schedule is consulted, each with the same `last`; (R2) Next answers 0 (refresh now) when the chosen window already started, adds the random spread only for spread windows, and otherwise answers window.Start - now; (R3) autoRefresh.Ensure hands Next the constant maxPostponement (95 days) as the bound and the last refresh time / the expired hold time as the anchor, and stores now+delta as the next refresh; (R4) a changed refresh.timer invalidates the cached next-refresh time: nextRefresh is cleared across lastRefreshSchedule != current string, and lastRefreshSchedule is written only by Ensure (and the managed-schedule fallback), from the string just compared; (R5) ParseSchedule returns a schedule only when every fragment parsed.",
 		NotDecided:  "that Schedule.Next/ClockSpan.Window land inside a window (week, month and midnight arithmetic); parse/format round trips; the random spread; metered-connection postponement.",
-		Run:         runC16,
+		Run:         func(c *Ctx) { runC16(c); runC16x(c) },
 	})
 }
 
